@@ -292,6 +292,12 @@ def show(t: Any) -> str:
         return f"{k}({', '.join(show(x) for x in t[1])})"
     if k == "div":
         return f"({show(t[1])}) / ({show(t[2])})"
+    if k == "ext":
+        return f"{t[1]}[{show(t[3])} for <node> in {show(t[2])}]"
+    if k == "elem":
+        return "<node>"
+    if k == "inf":
+        return "+inf" if t[1] > 0 else "-inf"
     if k == "var":
         return f"{t[1]}"
     if k == "bound":
